@@ -1,4 +1,5 @@
-"""Executable byte model of ArrayBuffer / SharedArrayBuffer / TypedArray / DataView (ECMA-262, 2024+ text).
+"""Executable byte model of ArrayBuffer / SharedArrayBuffer / TypedArray / DataView (ECMA-262 2024 text; copyWithin
+after a shrink as clarified in ES2025).
 
 The model executes *steps* (JSON-serialisable dicts, produced by vlib/gen_buf.py) on a small universe of
 buffer slots `b[i]` and view slots `v[i]` and produces, for every step, exactly the lines the rendered JS
@@ -965,6 +966,9 @@ class Machine:
         tsize = TYPES[target.t][0]
         ssize = TYPES[src.t][0]
         tat = target.off + off * tsize
+        if tbuf is sbuf and tbuf.shared and src.off < tat < src.off + slen * ssize:
+            # V8 11.3 copies forward without cloning the source when both views share a SharedArrayBuffer
+            self.hazard("v8:set_overlap_shared")
         if target.t == src.t:
             self.copy_bytes(tbuf, tat, sbuf, src.off, slen * ssize)
         else:
